@@ -81,6 +81,8 @@ def schedule(kind, start, end, wd=None, pre_market=False):
             m += 1
             if m == 13:
                 y, m = y + 1, 1
+            if y > 9999:
+                break                    # the last month any date type can hold
         return out
     if kind == "buy_and_hold":
         d = d0
